@@ -207,6 +207,8 @@ func (ex *Exec) intrinsic(th *Thread, caller *frame, fn *ssa.Function, args []Va
 		return ex.fromTerm(ex.ts.Not(fits))
 	case "vSleepMs":
 		return nil
+	case "vIsNative":
+		return false
 	case "vWide":
 		// n fresh symbolic bytes backed by ONE wide bit-vector variable (keeps signature-model terms small)
 		n := int(ex.intOf(args[1], "vWide length"))
@@ -437,6 +439,7 @@ func registerModels(P *Program) {
 	for _, p := range []string{
 		"github.com/biscuit-auth/biscuit-go/v2",
 		"github.com/biscuit-auth/biscuit-go/v2/datalog",
+		"github.com/biscuit-auth/biscuit-go/v2/parser",
 		"io",
 	} {
 		P.initOK[p] = true
